@@ -466,6 +466,10 @@ def _rt_special_case(kind, ti, njobs, var):
             spec = lambda job: "byid/" + job.id           # the empty state point has no automatic path next to other jobs
         if kind == 4:
             spec = [lambda job: os.path.join("..", "up", job.id), lambda job: os.path.join(sc.root, "abs", job.id), lambda job: os.path.join("ok", "..", "..", job.id)][var % 3]
+        if kind == 6:
+            # a path function whose results are different STRINGS for one and the same location
+            first = sorted(j.id for j in src)[0]
+            spec = [lambda job: "a/1" if job.id == first else "a//1", lambda job: "a/1" if job.id == first else "./a/1", lambda job: "a/1/" if job.id == first else "a/1/x"][var % 3]
         try:
             src.export_to(target, path=spec)
             exported = True
@@ -481,7 +485,7 @@ def _rt_special_case(kind, ti, njobs, var):
         if not exported:
             if kind in (0, 1, 2, 5):
                 problems.append(("export of an ordinary project raised", type(exc).__name__, str(exc)[:100]))
-            elif ti == 0 and os.path.exists(target) and any(v is not None for v in SL.snap(target).values()):
+            elif ti == 0 and os.path.exists(target) and any(v is not None for v in SL.snap(target).values()):   # kinds 3, 4, 6: refusing is fine, but before the first copy
                 problems.append(("export raised after copying job data",))
             return problems
         if kind in (3, 4) and ti != 0:
@@ -516,10 +520,11 @@ def _rt_special_case(kind, ti, njobs, var):
 
 
 def h_rt_special(kind: int, ti: int, njobs: int, var: int):
-    assert 0 <= kind <= 5 and 0 <= ti < 6 and 1 <= njobs <= 2 and 0 <= var <= 2 and part_ok(kind)
+    assert 0 <= kind <= 6 and 0 <= ti < 6 and 1 <= njobs <= 2 and 0 <= var <= 2 and part_ok(kind)
+    assert kind != 6 or njobs == 2
     assert tier() != "quick" or ti <= 3
     fresh_path()
-    kind, ti, njobs, var = ci(kind, 0, 5), ci(ti, 0, 5), ci(njobs, 1, 2), ci(var, 0, 2)
+    kind, ti, njobs, var = ci(kind, 0, 6), ci(ti, 0, 5), ci(njobs, 1, 2), ci(var, 0, 2)
     with nt():
         problems = _rt_special_case(kind, ti, njobs, var)
     reached()
@@ -690,7 +695,7 @@ def h_import_foreign(ni: int, ti: int, sk: int):
 HARNESSES = [
     dict(name="h_roundtrip", timeout=(900, 3000), parts=(16, 32), unblock=True),
     dict(name="h_import_foreign", timeout=(300, 600), unblock=True),
-    dict(name="h_rt_special", timeout=(600, 1200), parts=(6, 6), unblock=True),
+    dict(name="h_rt_special", timeout=(600, 1200), parts=(7, 7), unblock=True),
     dict(name="h_import_schema", twin="h_import_schema__reach", timeout=(600, 1200), parts=(4, 4), unblock=True),
     dict(name="h_leafnode", twin="h_leafnode__reach", timeout=(600, 1500), parts=(16, 16)),
     dict(name="h_pathmap", twin="h_pathmap__reach", timeout=(400, 1500), parts=(14, 28), unblock=True),
